@@ -93,7 +93,7 @@ func zzArgsFor(m reflect.Value, str string) []reflect.Value {
 	return out
 }
 
-var zzSurfaceStrings = []string{"0xSponsor-0", "0xSponsor-1", "chA:s1", "1356:chA:s1", "1356:chA:s1-1356:chB:s2-1", "x"}
+var zzSurfaceStrings = []string{"0xSponsor-0", "0xSponsor-1", "chA", "chA:s1", "1356:chA:s1", "1356:chA:s1-1356:chB:s2-1", "x"}
 
 // zzCallAsOutsider invokes contract.method the way BoltVM.Run would for an external account.
 func zzCallAsOutsider(w *zzWorld, c interface{}, address, method, str string) (res *boltvm.Response, panicked bool) {
@@ -114,6 +114,12 @@ func zzCallAs(w *zzWorld, caller string, c interface{}, address, method, str str
 	rc := reflect.ValueOf(c)
 	rc.Elem().Field(0).Set(reflect.ValueOf(&zzStub{w: w, callee: address, currentCaller: caller}))
 	m := rc.MethodByName(method)
+	if t := m.Type(); t.NumOut() != 1 || t.Out(0) != reflect.TypeOf((*boltvm.Response)(nil)) {
+		// methods promoted from embedded bitxhub-core types do not return *boltvm.Response: the
+		// real BoltVM runs them, fails on the result's type and the transaction is reverted.
+		// Modelled as refused (journaled effects only; Add/events of failed transactions are C07.D6/D7)
+		return boltvm.Error(boltvm.OtherInternalErrCode, "not a contract entry point"), false
+	}
 	out := m.Call(zzArgsFor(m, str))
 	if len(out) == 1 {
 		if r, ok := out[0].Interface().(*boltvm.Response); ok {
@@ -334,3 +340,68 @@ func ZZH_C17_former_admin() {
 		zz.Assert("C17.former.refused-without-effect", err != nil && w.effects == before && w.unchanged(snap))
 	}
 }
+
+// zzObjectReuse: built-in contract objects live as long as the process (the executor registers
+// one object per contract and swaps its Stub per call); a restarted node has fresh ones. The
+// same call - by each contract address as the designated caller - must therefore have the same
+// outcome on a fresh object and on an object that already served another call (here: the same
+// methods called by an outsider first, which has no effect). Compared: acceptance and the whole
+// resulting state and event count.
+func zzObjectReuse(address string) {
+	audit := zz.Choice("audit", 2) == 1
+	_, cs0 := zzFullWorld()
+	var list []string
+	for _, n := range zz.Methods(cs0[address]) {
+		switch n {
+		case "Caller", "Callee", "CurrentCaller", "Logger", "GetTxHash", "GetTxTimeStamp", "GetTxIndex", "GetCurrentHeight", "Has", "Get", "GetObject",
+			"Set", "SetObject", "Add", "AddObject", "Delete", "Query", "PostEvent", "PostInterchainEvent", "ValidationEngine", "CrossInvoke",
+			"CrossInvokeEVM", "GetAccount", "EnableAudit":
+			continue
+		}
+		list = append(list, n)
+	}
+	method := list[zz.Choice("method", len(list))]
+	str := zzSurfaceStrings[zz.Choice("strings", len(zzSurfaceStrings))]
+	callers := []string{zzGovAddr, zzAppchainAddr, zzServiceAddr, zzInterchainAddr, zzRoleAddr, zzRuleAddr}
+	caller := callers[zz.Choice("designatedCaller", len(callers))]
+	run := func(used bool) (bool, *zzWorld, bool) {
+		w, cs := zzFullWorld()
+		w.audit = audit
+		zzPutGovAdmins(w, 4)
+		w.putObj(zzAppchainAddr, appchainMgr.AppchainKey("chA"), appchainMgr.Appchain{ID: "chA", ChainName: "chA", ChainType: "fabric", Status: governance.GovernanceAvailable})
+		c := cs[address]
+		if used {
+			// the object has served every one of its entry points before (called by an outsider:
+			// no effect, C17) - whatever they leave behind in the object's fields is there now
+			before := w.effects
+			w.caller = zzOutsider
+			for _, m := range list {
+				_, _ = zzCallAs(w, zzOutsider, c, address, m, str)
+			}
+			if w.effects != before {
+				return false, w, false // an outsider's call had an effect: C17's subject (known findings)
+			}
+		}
+		w.caller = zzOutsider
+		res, _ := zzCallAs(w, caller, c, address, method, str)
+		return res != nil && res.Ok, w, true
+	}
+	okFresh, wFresh, _ := run(false)
+	okUsed, wUsed, comparable := run(true)
+	if !comparable {
+		return
+	}
+	key := fmt.Sprintf("%T.%s", cs0[address], method)
+	zz.Cover("C01.reuse.accepted", okFresh)
+	zz.Assert("C01.reuse.same-outcome-on-fresh-and-used-object:"+key, okFresh == okUsed && wFresh.unchanged(wUsed.snapshot()))
+}
+
+func ZZH_C01_reuse_service()    { zzObjectReuse(zzServiceAddr) }
+func ZZH_C01_reuse_appchain()   { zzObjectReuse(zzAppchainAddr) }
+func ZZH_C01_reuse_rule()       { zzObjectReuse(zzRuleAddr) }
+func ZZH_C01_reuse_role()       { zzObjectReuse(zzRoleAddr) }
+func ZZH_C01_reuse_governance() { zzObjectReuse(zzGovAddr) }
+func ZZH_C01_reuse_interchain() { zzObjectReuse(zzInterchainAddr) }
+func ZZH_C01_reuse_txmgr()      { zzObjectReuse(zzTMAddr) }
+func ZZH_C01_reuse_node()       { zzObjectReuse(zzNodeAddr) }
+func ZZH_C01_reuse_dapp()       { zzObjectReuse(zzDappAddr) }
